@@ -510,6 +510,146 @@ pub fn run(ctx: &mut Ctx) -> Report {
 			}
 		}
 	}
+	// (j) one issuer key used concurrently for *different kinds of work under different settings*:
+	// certificates whose authority key identifier follows the issuer's method, and revocation lists
+	// under three other key-identifier methods, all from many threads at once.  Every output must
+	// be the one the same call gives alone (Ed25519: the complete DER).
+	#[cfg(not(feature = "nocrypto"))]
+	{
+		let iss_key = s.ctx.key("ed25519");
+		let mut ip = PCert::default_like();
+		ip.ca = Ca::Ca(None);
+		ip.serial = Some(vec![2]);
+		ip.kid = Kid::Sha256;
+		let issuer = Arc::new(ip.real().unwrap().self_signed(&*iss_key).unwrap());
+		let leaf_key = s.ctx.key("ed25519");
+		let mut lp = PCert::default_like();
+		lp.serial = Some(vec![3]);
+		lp.aki = true;
+		fn crl_with(m: KeyIdMethod) -> CertificateRevocationListParams {
+			CertificateRevocationListParams {
+				this_update: Dt::ymd(2024, 1, 1).real().unwrap(),
+				next_update: Dt::ymd(2025, 1, 1).real().unwrap(),
+				crl_number: SerialNumber::from(5u64),
+				issuing_distribution_point: None,
+				revoked_certs: vec![],
+				key_identifier_method: m,
+			}
+		}
+		type Job = Arc<dyn Fn() -> Option<Vec<u8>> + Send + Sync>;
+		let mut jobs: Vec<(&str, Job)> = Vec::new();
+		{
+			let (lp, leaf_key, issuer, iss_key) = (lp.clone(), leaf_key.clone(), issuer.clone(), iss_key.clone());
+			jobs.push(("certificate (AKI by the issuer's SHA-256 method)", Arc::new(move || lp.real()?.signed_by(&*leaf_key, &issuer, &iss_key).ok().map(|c| c.der().to_vec()))));
+		}
+		for (name, m) in [("CRL under SHA-384", KeyIdMethod::Sha384), ("CRL under SHA-512", KeyIdMethod::Sha512), ("CRL under a pre-specified identifier", KeyIdMethod::PreSpecified(vec![4, 5, 6]))] {
+			let (issuer, iss_key) = (issuer.clone(), iss_key.clone());
+			jobs.push((name, Arc::new(move || crl_with(m.clone()).signed_by(&issuer, &iss_key).ok().map(|c| c.der().to_vec()))));
+		}
+		let alone: Vec<Option<Vec<u8>>> = jobs.iter().map(|(_, j)| j()).collect();
+		let iters = if s.ctx.thorough { 4000 } else { 1200 };
+		let mut handles = Vec::new();
+		for t in 0..16usize {
+			let jobs: Vec<Job> = jobs.iter().map(|(_, j)| j.clone()).collect();
+			let alone = alone.clone();
+			handles.push(std::thread::spawn(move || {
+				let mut bad: Vec<usize> = Vec::new();
+				for i in 0..iters {
+					let k = (i + t) % jobs.len();
+					if jobs[k]() != alone[k] {
+						bad.push(k);
+					}
+				}
+				bad
+			}));
+		}
+		let bad: Vec<usize> = handles.into_iter().flat_map(|h| h.join().unwrap_or_default()).collect();
+		s.rep.add("threaded_generations_mixed_methods", (16 * iters) as u64);
+		s.rep.evaluations += (16 * iters) as u64;
+		s.rep.case("16 threads x certificates and CRLs under four key-identifier methods on one issuer key", true);
+		if !bad.is_empty() || alone.iter().any(|a| a.is_none()) {
+			let which: Vec<&str> = { let mut w: Vec<&str> = bad.iter().map(|k| jobs[*k].0).collect(); w.sort(); w.dedup(); w };
+			s.rep.violate("C15:threads:mixed-methods", "concurrent generation of certificates and revocation lists under different key-identifier methods, sharing one issuer key, gives other output than each call gives alone", format!("{} of {} concurrent generations differ from the result of the same call made alone; kinds affected: {:?}", bad.len(), 16 * iters, which));
+		}
+	}
+	// (k) a remote signer that *panics* once (on a worker thread that dies with it): what the same
+	// key produces afterwards is what it produced before
+	{
+		use std::sync::atomic::{AtomicBool, Ordering};
+		struct Flaky { inner: Arc<KeyPair>, armed: Arc<AtomicBool> }
+		impl RemoteKeyPair for Flaky {
+			fn public_key(&self) -> &[u8] { self.inner.as_remote().map(|r| r.public_key()).unwrap_or(&[]) }
+			fn sign(&self, msg: &[u8]) -> Result<Vec<u8>, Error> {
+				if self.armed.swap(false, Ordering::SeqCst) {
+					panic!("signing device unplugged");
+				}
+				self.inner.as_remote().ok_or(Error::RemoteKeyError)?.sign(msg)
+			}
+			fn algorithm(&self) -> &'static SignatureAlgorithm { &PKCS_ED25519 }
+		}
+		let base = Arc::new(crate::keys::remote_key(&PKCS_ED25519, &s.ctx.rsa_fixture).key_pair);
+		let armed = Arc::new(AtomicBool::new(false));
+		if let Ok(kp) = KeyPair::from_remote(Box::new(Flaky { inner: base.clone(), armed: armed.clone() })) {
+			let kp = Arc::new(kp);
+			let mut p = PCert::default_like();
+			p.serial = Some(vec![8]);
+			if cfg!(feature = "nocrypto") {
+				p.kid = Kid::Pre(vec![1; 20]);
+			}
+			let make = |k: &KeyPair| p.real().and_then(|r| r.self_signed(k).ok()).map(|c| c.der().to_vec());
+			let before = make(&kp);
+			armed.store(true, Ordering::SeqCst);
+			let (k2, p2) = (kp.clone(), p.clone());
+			let died = std::thread::spawn(move || p2.real().and_then(|r| r.self_signed(&k2).ok()).map(|c| c.der().to_vec())).join().is_err();
+			let after = make(&kp);
+			let (k3, p3) = (kp.clone(), p.clone());
+			let after_other_thread = std::thread::spawn(move || p3.real().and_then(|r| r.self_signed(&k3).ok()).map(|c| c.der().to_vec())).join().ok().flatten();
+			s.rep.case("remote signer panics once on a worker thread", true);
+			s.rep.count(if died { "remote_signer_panic_delivered" } else { "remote_signer_panic_not_delivered" });
+			if before.is_none() || after != before || after_other_thread != before {
+				s.rep.violate("C15:after-a-signer-panic", "after a remote signer panicked once (on another thread), the same key no longer produces what it produced before", format!("before: {:?}
+after (same thread as before): {:?}
+after (fresh thread): {:?}", before.map(|d| hex(&d)), after.map(|d| hex(&d)), after_other_thread.map(|d| hex(&d))));
+			}
+		}
+	}
+	// (l) revocation lists in every order of their numbers: what a call returns does not depend
+	// on which lists were issued before it in the process (same key object, and the same key loaded
+	// again)
+	#[cfg(not(feature = "nocrypto"))]
+	{
+		let key = s.ctx.key("ed25519");
+		let again = KeyPair::try_from(key.serialize_der()).ok();
+		let mut ip = PCert::default_like();
+		ip.ca = Ca::Ca(None);
+		ip.serial = Some(vec![2]);
+		let issuer = ip.real().unwrap().self_signed(&*key).unwrap();
+		let crl = |n: u64, k: &KeyPair| CertificateRevocationListParams {
+			this_update: Dt::ymd(2024, 1, 1).real().unwrap(),
+			next_update: Dt::ymd(2025, 1, 1).real().unwrap(),
+			crl_number: SerialNumber::from(n),
+			issuing_distribution_point: None,
+			revoked_certs: vec![],
+			key_identifier_method: KeyIdMethod::Sha256,
+		}.signed_by(&issuer, k).map(|c| c.der().to_vec()).map_err(|e| err_name(&e));
+		// reference results, each number first seen in increasing order
+		let nums = [1u64, 9, 10, 0xffff_ffff_ffff];
+		let mut want = std::collections::BTreeMap::new();
+		for n in nums {
+			want.insert(n, crl(n, &key));
+		}
+		for seq in [vec![9u64, 10, 9], vec![10, 1], vec![0xffff_ffff_ffff, 9, 1, 10], vec![10, 10, 9, 9]] {
+			for (i, n) in seq.iter().enumerate() {
+				let k: &KeyPair = if i % 2 == 1 { again.as_ref().unwrap_or(&key) } else { &key };
+				let got = crl(*n, k);
+				s.rep.case(&format!("crl-number-sequence {:?} step {}", seq, i), true);
+				if Some(&got) != want.get(n) {
+					s.rep.violate("C15:crl-history", "what a revocation list request returns depends on the lists issued before it in the same process", format!("numbers issued in the order {:?}: step {} (number {}) returned {:?}, the same request made first returns {:?}", seq, i, n, got.as_ref().map(|d| hex(d)), want.get(n).map(|r| r.as_ref().map(|d| hex(d)))));
+					break;
+				}
+			}
+		}
+	}
 	// (c) threads sharing one key pair and one issuer certificate
 	{
 		let key = s.ctx.key("ed25519");
